@@ -2,6 +2,7 @@ package rules
 
 import (
 	"fmt"
+	"go/token"
 	"go/types"
 	"sort"
 	"strings"
@@ -51,8 +52,9 @@ type effects struct {
 	emits, accumulates bool
 	global, book       []string
 	emitPos, accPos    string
-	feeds              string // position of a contribution to the receiver's accumulator/tree (Add, AddDeep)
-	nets               string // position of an arithmetic update m[k] = m[k] + v of a map of the receiver
+	feeds              string   // position of a contribution to the receiver's accumulator/tree (Add, AddDeep)
+	nets               string   // position of an arithmetic update m[k] = m[k] + v of a map of the receiver
+	overwrites         []string // numeric state of the receiver assigned without adding to its old value
 }
 
 // methodEffects explores one method and classifies what it writes.
@@ -146,12 +148,37 @@ func methodEffects(c *core.Ctx, rule string, fn *ssa.Function) (effects, bool) {
 			return
 		}
 		note(r, "store to "+addr.Key(), c.P.Pos(in.Pos()))
+		if r == "recv" && isNumeric(in.Val.Type()) {
+			if p, ok := addr.(absint.Ptr); ok && !strings.Contains(p.Loc, "[") {
+				oldKey := ""
+				if hv, ok := s.Heap[p.Loc]; ok {
+					oldKey = hv.Key()
+				}
+				okSum := sumContains(val, func(a absint.Value) bool { return locOf(x, a) == p.Loc || (oldKey != "" && a.Key() == oldKey) }, 0)
+				if !okSum {
+					ef.overwrites = append(ef.overwrites, fmt.Sprintf("%s: %s = %s", c.P.Pos(in.Pos()), p.Loc[strings.LastIndex(p.Loc, "·")+len("·"):], val.Key()))
+				}
+			}
+		}
 	}
 	x.Hooks.MapUpdate = func(x *absint.Exec, s *absint.State, in *ssa.MapUpdate, m, k, v absint.Value) {
 		r := rootOf(x, m)
 		note(r, "map update of "+m.Key(), c.P.Pos(in.Pos()))
 		if t, ok := v.(*absint.Term); ok && r == "recv" && ef.nets == "" && (t.Op == "+" || t.Op == "-") && strings.Contains(t.Key(), "lookup(") {
 			ef.nets = c.P.Pos(in.Pos())
+		}
+		if r == "recv" && isNumeric(in.Value.Type()) {
+			want := absint.NewTerm("lookup", m, k).Key()
+			okSum := sumContains(v, func(a absint.Value) bool { return a.Key() == want }, 0)
+			if !okSum && (v.Key() == "c:0" || v.Key() == "zero") {
+				// seeding an absent entry with zero before adding to it
+				if o := x.Possible(s, "b("+absint.NewTerm("has", m, k).Key()+")"); len(o) == 1 && o[0] == "F" {
+					okSum = true
+				}
+			}
+			if !okSum {
+				ef.overwrites = append(ef.overwrites, fmt.Sprintf("%s: entry [%s] = %s", c.P.Pos(in.Pos()), k.Key(), v.Key()))
+			}
 		}
 	}
 	x.Hooks.Call = func(x *absint.Exec, s *absint.State, site ssa.CallInstruction, callee *ssa.Function, fnv absint.Value, args []absint.Value) (absint.Value, bool) {
@@ -270,6 +297,9 @@ func ruleReporterDiscipline(c *core.Ctx, rule string, only ...string) {
 		for _, g := range pe.global {
 			bad = append(bad, "Process writes a package-level variable ("+g+"): state leaks from one day (and one reporter) to the next")
 		}
+		for _, o := range pe.overwrites {
+			bad = append(bad, "Process overwrites a running figure of the reporter instead of adding to it ("+o+"): what an earlier day contributed is forgotten, so the report of a concatenated log is not the sum of the reports of its parts")
+		}
 		for _, g := range pe.book {
 			bad = append(bad, "Process writes through the shared recipe book ("+g+")")
 		}
@@ -371,16 +401,18 @@ func ruleCallbackScratch(c *core.Ctx, rule string) {
 func init() {
 	register(&Property{
 		ID:    "C12",
-		Rules: []string{"C12-R1", "C12-R2", "C12-R3", "C12-R4", "C12-R5", "C10-R3"},
+		Rules: []string{"C12-R1", "C12-R2", "C12-R3", "C12-R4", "C12-R5", "C12-R6", "C10-R3"},
 		Explain: "Decides the absence of state that could leak from one day into the next: C12-R1 every Reporter implementation is streaming (Process writes to its sink and to nothing persistent; Flush adds no content) or accumulating (Process updates its own state and writes nothing), never both, and no Process writes a package-level variable or the shared recipe book; " +
 			"C12-R2 the per-record callback that feeds reporters writes every captured variable before reading it within one invocation; " +
 			"C12-R3 no pointer to a variable that outlives one record is stored into a record by the parser; C12-R4 every heading yields exactly one delivered record whatever follows it; " +
 			"C12-R5 a reporter's sink is the configured output, a bufio.Writer or a csv.Writer over it — not a writer that holds rows back and re-lays them out when flushed (text/tabwriter), which would make earlier days' rows depend on later days; " +
+			"C12-R6 a decision on the size of an accumulator is an emptiness test (a part that contributed one element is not treated as empty); C12-R7 in Process an entry of a numeric map of the reporter, or a scalar total, is only ever updated to its old value plus the day's contribution (never overwritten); " +
 			"C10-R3 (shared) no per-record callback stops the walk without an error, so a day in the middle cannot make the later days vanish.",
 		NotDecided: "element-wise sum of the parts for period reports (float addition order), equality of concatenated outputs as byte strings",
 		Run: func(c *core.Ctx) {
 			ruleReporterDiscipline(c, "C12-R1")
 			ruleReporterSinks(c, "C12-R5")
+			ruleEmptinessTests(c, "C12-R6")
 			ruleCallbackConsumers(c, map[string]bool{"C10-R3": true})
 			ruleCallbackScratch(c, "C12-R2")
 			analyseParserLoop(c, map[string]bool{"C12-R3": true, "C12-R4": true})
@@ -479,4 +511,92 @@ func wrapsOnly(t types.Type, okTypes map[string]string, depth int) bool {
 		}
 	}
 	return seen
+}
+
+// ruleEmptinessTests is C12-R6 (and C02-R9): wherever a reporter decides on the
+// size of an Accumulator, the test is an emptiness test (len == 0, len > 0 and
+// their equivalents). A report that is printed only from two elements on
+// (len > 1) drops a day or a period that contributed exactly one element, so
+// the report of a part is empty although the concatenation shows its values.
+func ruleEmptinessTests(c *core.Ctx, rule string) {
+	accT := c.P.LookupType(core.LibPath, "Accumulator")
+	if !requireAnchor(c, rule, "lib.Accumulator", accT != nil) {
+		return
+	}
+	isAccLen := func(v ssa.Value) bool {
+		call, ok := v.(*ssa.Call)
+		if !ok {
+			return false
+		}
+		b, ok := call.Call.Value.(*ssa.Builtin)
+		return ok && b.Name() == "len" && len(call.Call.Args) == 1 && types.Identical(call.Call.Args[0].Type(), accT)
+	}
+	n := 0
+	for _, fn := range c.P.Funcs {
+		for _, b := range fn.Blocks {
+			for _, in := range b.Instrs {
+				bo, ok := in.(*ssa.BinOp)
+				if !ok {
+					continue
+				}
+				var k *ssa.Const
+				op := bo.Op
+				switch {
+				case isAccLen(bo.X):
+					k, _ = bo.Y.(*ssa.Const)
+				case isAccLen(bo.Y):
+					k, _ = bo.X.(*ssa.Const)
+					// mirror: K op len  ==  len op' K
+					switch op {
+					case token.LSS:
+						op = token.GTR
+					case token.GTR:
+						op = token.LSS
+					case token.LEQ:
+						op = token.GEQ
+					case token.GEQ:
+						op = token.LEQ
+					}
+				default:
+					continue
+				}
+				n++
+				fname := core.FuncName(fn)
+				pos := c.P.Pos(bo.Pos())
+				if k == nil {
+					c.Violate(rule, fname, "len(acc) test", pos, "the size of an accumulator is compared with a run-time value", nil)
+					continue
+				}
+				v := k.Int64()
+				okTest := (v == 0 && (op == token.GTR || op == token.EQL || op == token.NEQ || op == token.LEQ)) || (v == 1 && (op == token.LSS || op == token.GEQ))
+				if okTest {
+					c.Discharge(rule, fname, "len(acc) test", pos, "an emptiness test")
+				} else {
+					c.Violate(rule, fname, "len(acc) test", pos, fmt.Sprintf("the size of the accumulator is tested with %s %d, which is not an emptiness test: a day or period that contributed exactly one element is treated like an empty one (or the reverse)", op, v), nil)
+				}
+			}
+		}
+	}
+	if n == 0 {
+		c.Note(rule + ": no decision on the size of an accumulator in the tree")
+	}
+}
+
+func isNumeric(t types.Type) bool {
+	b, ok := t.Underlying().(*types.Basic)
+	return ok && b.Info()&(types.IsInteger|types.IsFloat) != 0
+}
+
+// sumContains: v is a sum/difference (possibly nested) one of whose operands satisfies pred.
+func sumContains(v absint.Value, pred func(absint.Value) bool, depth int) bool {
+	t, ok := v.(*absint.Term)
+	if !ok || (t.Op != "+" && t.Op != "-") || depth > 6 {
+		return false
+	}
+	for _, a := range t.Args {
+		if pred(a) || sumContains(a, pred, depth+1) {
+			return true
+		}
+	}
+	return false
 }
